@@ -166,9 +166,11 @@ end Eval
 
 /-! ## Value kinds -/
 
-/-- bool / int / float: the values Python orders against a number -/
+/-- bool / int / float — or an instance of a user subclass of one of them, which IS that number:
+the values Python orders against a number -/
 def Val.isReal : Val → Bool
   | .bool _ | .int _ | .float _ => true
+  | .sub _ (.bool _) | .sub _ (.int _) | .sub _ (.float _) => true
   | _ => false
 
 /-- `Decimal` / `Fraction` instances: their arithmetic is the standard library's (an external) -/
@@ -176,29 +178,71 @@ def Val.isDecFrac : Val → Bool
   | .opaque "Decimal" _ | .opaque "Fraction" _ => true
   | _ => false
 
-/-- values with a `__len__` -/
+/-- values with a `__len__` (an instance of a user subclass of str / bytes / bytearray has its base's) -/
 def Val.hasLen : Val → Bool
   | .str _ | .bytes _ | .bytearray _ | .list _ | .tuple _ | .set _ | .frozenset _ | .deque _
   | .dict _ | .mapOf _ _ => true
+  | .sub _ (.str _) | .sub _ (.bytes _) | .sub _ (.bytearray _) => true
   | _ => false
 
-/-- the real number a bool / int / float denotes -/
+/-- the real number a bool / int / float (or an instance of a user subclass of one) denotes -/
 def Val.realPart : Val → Flt
   | .bool b => .fin (if b then 1 else 0) 0
   | .int i => .fin i 0
   | .float f => f
+  | .sub _ (.bool b) => .fin (if b then 1 else 0) 0
+  | .sub _ (.int i) => .fin i 0
+  | .sub _ (.float f) => f
   | _ => .nan
+
+/-- the six shapes of a real number -/
+theorem Val.isReal_cases {a : Val} (ha : a.isReal = true) :
+    (∃ b, a = .bool b) ∨ (∃ i, a = .int i) ∨ (∃ f, a = .float f) ∨
+    (∃ c b, a = .sub c (.bool b)) ∨ (∃ c i, a = .sub c (.int i)) ∨ (∃ c f, a = .sub c (.float f)) := by
+  unfold Val.isReal at ha
+  split at ha
+  · exact .inl ⟨_, rfl⟩
+  · exact .inr (.inl ⟨_, rfl⟩)
+  · exact .inr (.inr (.inl ⟨_, rfl⟩))
+  · exact .inr (.inr (.inr (.inl ⟨_, _, rfl⟩)))
+  · exact .inr (.inr (.inr (.inr (.inl ⟨_, _, rfl⟩))))
+  · exact .inr (.inr (.inr (.inr (.inr ⟨_, _, rfl⟩))))
+  · cases ha
+
+/-- a number that is not real is a complex (or an instance of a user subclass of complex) -/
+theorem Val.numParts_not_real {a : Val} {p : Flt × Flt} (hp : a.numParts = some p) (ha : a.isReal = false) :
+    (∃ re im, a = .complex re im) ∨ (∃ c re im, a = .sub c (.complex re im)) := by
+  unfold Val.numParts at hp
+  split at hp
+  · cases ha
+  · cases ha
+  · cases ha
+  · exact .inl ⟨_, _, rfl⟩
+  · cases ha
+  · cases ha
+  · cases ha
+  · exact .inr ⟨_, _, _, rfl⟩
+  · cases hp
 
 theorem numCmp_real (op : CmpOp) {a b : Val} (ha : a.isReal = true) (hb : b.isReal = true) :
     numCmp op a b = .ok (Flt.cmp a.realPart b.realPart) := by
-  cases a <;> simp only [Val.isReal, Bool.false_eq_true] at ha <;>
-    cases b <;> simp only [Val.isReal, Bool.false_eq_true] at hb <;> rfl
+  rcases Val.isReal_cases ha with ⟨_, rfl⟩ | ⟨_, rfl⟩ | ⟨_, rfl⟩ | ⟨_, _, rfl⟩ | ⟨_, _, rfl⟩ | ⟨_, _, rfl⟩ <;>
+    rcases Val.isReal_cases hb with ⟨_, rfl⟩ | ⟨_, rfl⟩ | ⟨_, rfl⟩ | ⟨_, _, rfl⟩ | ⟨_, _, rfl⟩ | ⟨_, _, rfl⟩ <;>
+    rfl
 
 theorem numCmp_not_real_left (op : CmpOp) {a : Val} (b : Val) (ha : a.isReal = false) :
     numCmp op a b = .error { cls := .typeError, msg := "TypeError: '" ++ op.sym ++
       "' not supported between instances of '" ++ a.tpName ++ "' and '" ++ b.tpName ++ "'" } := by
-  cases a <;> simp only [Val.isReal, Bool.true_eq_false] at ha <;>
-    cases b <;> simp only [numCmp, Val.numParts]
+  unfold numCmp
+  split
+  · rfl
+  · rfl
+  · rfl
+  · rename_i h1 h2 _ hx _
+    rcases Val.numParts_not_real hx ha with ⟨_, _, rfl⟩ | ⟨_, _, _, rfl⟩
+    · exact (h1 _ _ rfl).elim
+    · exact (h2 _ _ _ rfl).elim
+  · rfl
 
 theorem valCmp_of_not_decfrac (E : Ext) (op : CmpOp) {v : Val} (b : Val) (h : v.isDecFrac = false) :
     valCmp E op v b = (numCmp op v b).map op.holds := by
@@ -209,7 +253,7 @@ theorem valCmp_of_not_decfrac (E : Ext) (op : CmpOp) {v : Val} (b : Val) (h : v.
   · rfl
 
 theorem isReal_not_decfrac {v : Val} (h : v.isReal = true) : v.isDecFrac = false := by
-  cases v <;> simp only [Val.isReal, Bool.false_eq_true] at h <;> rfl
+  rcases Val.isReal_cases h with ⟨_, rfl⟩ | ⟨_, rfl⟩ | ⟨_, rfl⟩ | ⟨_, _, rfl⟩ | ⟨_, _, rfl⟩ | ⟨_, _, rfl⟩ <;> rfl
 
 theorem valCmp_real (E : Ext) (op : CmpOp) {v b : Val} (hv : v.isReal = true) (hb : b.isReal = true) :
     valCmp E op v b = .ok (op.holds (Flt.cmp v.realPart b.realPart)) := by
@@ -223,12 +267,16 @@ theorem valCmp_no_order (E : Ext) (op : CmpOp) {v : Val} (b : Val)
 
 theorem pyLen_no_len {v : Val} (h : v.hasLen = false) :
     pyLen v = .error { cls := .typeError, msg := "TypeError: object of type '" ++ v.tpName ++ "' has no len()" } := by
-  cases v <;> simp only [Val.hasLen, Bool.true_eq_false] at h <;> rfl
+  unfold pyLen
+  split <;> first | rfl | simp [Val.hasLen] at h
 
 theorem isFiniteV_not_real (E : Ext) {v : Val} (h1 : v.isReal = false) (h2 : v.isDecFrac = false) :
     isFiniteV E v = .error { cls := .typeError, msg := "TypeError: must be real number, not " ++ v.tpName } := by
   unfold isFiniteV
   split
+  · simp [Val.isReal] at h1
+  · simp [Val.isReal] at h1
+  · simp [Val.isReal] at h1
   · simp [Val.isReal] at h1
   · simp [Val.isReal] at h1
   · simp [Val.isReal] at h1
